@@ -814,6 +814,11 @@ func (w *_assembler) BeginList(sizeHint int64) (datamodel.ListAssembler, error) 
 		// we should be able to safely assume we're dealing with a Go slice here,
 		// so _listAssembler can append to that
 		val := w.createNonPtrVal()
+		if val.Kind() == reflect.Slice && val.IsNil() {
+			// a list that has been begun is there, also when it stays empty:
+			// a nil slice would read back as absent or null where the slot is a bare slice
+			val.Set(reflect.MakeSlice(val.Type(), 0, 0))
+		}
 		return &_listAssembler{
 			cfg:        w.cfg,
 			schemaType: typ,
@@ -1123,6 +1128,10 @@ func (w *_assembler) AssignBytes(p []byte) error {
 			// Any means the Go type must receive a datamodel.Node
 			w.createNonPtrVal().Set(reflect.ValueOf(basicnode.NewBytes(p)))
 		} else {
+			if p == nil {
+				// empty bytes are bytes: a nil slice would read back as absent or null where the slot is a bare []byte
+				p = []byte{}
+			}
 			w.createNonPtrVal().SetBytes(p)
 		}
 	}
